@@ -44,9 +44,11 @@ type permSource struct {
 	other  *dmodel.Model   // the fixed other side of modify / rev
 	doc    string
 	blocks []string
+	raw    bool // hand written multi-schema document (rawdocs.go): realm diffs against the empty realm
 }
 
 type permEnv struct {
+	quick   bool // skip the marshal round trip of the heavy sources
 	seed    uint64
 	sources map[string]*permSource // dialect + "|" + name
 	order   []string
@@ -60,6 +62,10 @@ type baseline struct {
 	once    sync.Once
 	p       planned
 	dump    []string // order-normalised dump of the evaluated graph
+	hcl     []string // sorted top-level blocks of MarshalHCL(evaluated realm)
+	hclErr  string
+	rt      []string // dump of the re-evaluated marshalled document (nil: not evaluable)
+	rtErr   string
 	setup   []string // SQLite: statements creating the current state
 	cat     []string // SQLite: catalogue after setup + plan
 	execOK  bool
@@ -81,6 +87,7 @@ func (e *permEnv) baseline(s *permSource, mode string) *baseline {
 			return
 		}
 		b.dump = dumpRealm(b.p.realm)
+		b.hcl, b.rt, b.hclErr, b.rtErr = marshalled(s, b.p.realm, true)
 		b.p.realm = nil // graphs are never shared between cases
 		if s.d == dmodel.SQLite && len(s.models) == 1 {
 			var err error
@@ -97,6 +104,33 @@ func (e *permEnv) baseline(s *permSource, mode string) *baseline {
 		}
 	})
 	return b
+}
+
+// marshalled returns the sorted top-level blocks of MarshalHCL(realm) and, with roundTrip, the
+// order-normalised dump of the realm obtained by evaluating that document again.
+func marshalled(s *permSource, r *schema.Realm, roundTrip bool) (blocks, rt []string, mErr, rtErr string) {
+	a := apis[s.d]
+	var v any = r
+	if len(s.models) == 1 && !s.raw {
+		sc, ok := r.Schema(s.models[0].Schema)
+		if !ok {
+			return nil, nil, "schema missing", ""
+		}
+		v = sc
+	}
+	b, err := a.marshal(v)
+	if err != nil {
+		return nil, nil, err.Error(), ""
+	}
+	blocks = sortedCopy(Blocks(string(b)))
+	if roundTrip {
+		r2, err := a.evalDoc(string(b))
+		if err != nil {
+			return blocks, nil, "", err.Error()
+		}
+		rt = dumpRealm(r2)
+	}
+	return
 }
 
 // execCatalogue runs setup and plan on a fresh in-memory SQLite database and dumps its catalogue.
@@ -119,7 +153,9 @@ func execCatalogue(setup, cmds []string) ([]string, error) {
 func newPermEnv(seed uint64) *permEnv {
 	e := &permEnv{seed: seed, sources: map[string]*permSource{}, bases: map[string]*baseline{}}
 	add := func(s *permSource) {
-		s.doc = docOf(s.models...)
+		if !s.raw {
+			s.doc = docOf(s.models...)
+		}
 		s.blocks = Blocks(s.doc)
 		if strings.Join(s.blocks, "") != s.doc {
 			panic("c20: block split of " + s.name + " does not reassemble to the document")
@@ -165,6 +201,9 @@ func newPermEnv(seed uint64) *permEnv {
 		add(&permSource{name: "dag", d: d, models: []*dmodel.Model{dagModel(seed, d)}, other: half})
 		if d != dmodel.SQLite { // the SQLite planner refuses AddSchema / DropSchema
 			add(&permSource{name: "all+aux", d: d, models: []*dmodel.Model{all, aux}, other: half})
+			for _, rd := range rawDocs(d) {
+				add(&permSource{name: "raw:" + rd.name, d: d, raw: true, doc: rd.doc})
+			}
 		}
 	}
 	return e
@@ -454,14 +493,16 @@ func execAll(db *sql.DB, stmts []string) error {
 // ---- one case -----------------------------------------------------------------------------------
 
 type permResult struct {
-	verdict  string // held | violated | inconclusive | ood
-	key      string
-	why      string
-	detail   map[string]any
-	digest   string
-	stmts    int
-	moved    bool // statement sequence differs from the baseline's
-	executed bool
+	rejected  bool   // raw document rejected in listed and permuted order alike
+	roundTrip bool   // marshalled document re-evaluated and compared
+	verdict   string // held | violated | inconclusive | ood
+	key       string
+	why       string
+	detail    map[string]any
+	digest    string
+	stmts     int
+	moved     bool // statement sequence differs from the baseline's
+	executed  bool
 }
 
 type planned struct {
@@ -481,11 +522,14 @@ func planFor(s *permSource, mode string, files []HFile) (p planned) {
 		return planned{err: err, stage: "eval"}
 	}
 	p.realm = r
-	multi := len(s.models) > 1
+	multi := len(s.models) > 1 || s.raw
 	var changes []schema.Change
 	if multi {
 		empty := schema.NewRealm()
-		otherR := schema.NewRealm(dmodel.Build(s.other))
+		otherR := schema.NewRealm()
+		if s.other != nil {
+			otherR = schema.NewRealm(dmodel.Build(s.other))
+		}
 		switch mode {
 		case "create":
 			changes, err = a.diff.RealmDiff(empty, r, schema.DiffNormalized())
@@ -609,6 +653,18 @@ func onePerm(e *permEnv, pc PermCase) (res permResult) {
 			res.why = fmt.Sprintf("%s %s: the source in listed order fails at %s (%v) but a permutation of its blocks is accepted", pc.Dialect, pc.Source, base.stage, base.err)
 			return
 		}
+		if s.raw && perm.stage == base.stage {
+			// a hand written document that Atlas rejects: rejected at the same stage in this order too
+			res.verdict = "held"
+			res.rejected = true
+			res.digest = rt.Digest(pc.Dialect, pc.Source, pc.Mode, "rejected", base.stage)
+			return
+		}
+		if s.raw {
+			res.verdict, res.key = "violated", keyOf("rejected-at-another-stage")
+			res.why = fmt.Sprintf("%s %s: the source in listed order fails at %s (%v), the permuted one at %s (%v)", pc.Dialect, pc.Source, base.stage, base.err, perm.stage, perm.err)
+			return
+		}
 		res.verdict = "ood"
 		res.key = base.stage
 		return
@@ -665,6 +721,40 @@ func onePerm(e *permEnv, pc PermCase) (res permResult) {
 			res.verdict, res.key = "violated", keyOf("differ-sees-difference")
 			res.why = fmt.Sprintf("%s %s: the differ reports changes between the listed-order and the permuted source (direction %d): err=%v\n%s", pc.Dialect, pc.Source, dir, err, clip([]byte(describe(ch)), 600))
 			return
+		}
+	}
+	// (3b) MarshalHCL of the evaluated realm: the same BLOCKS whatever the order of the source, and the
+	// marshalled document evaluates back to the same schema
+	{
+		heavy := !s.raw && !strings.HasPrefix(s.name, "pool:")
+		roundTrip := !(heavy && e.quick)
+		hb, rtd, mErr, rtErr := marshalled(s, perm.realm, roundTrip)
+		switch {
+		case (mErr != "") != (bl.hclErr != ""):
+			res.verdict, res.key = "violated", keyOf("marshal-fails-in-one-order")
+			res.why = fmt.Sprintf("%s %s: MarshalHCL of the evaluated schema fails for one block order only: listed=%q permuted=%q", pc.Dialect, pc.Source, bl.hclErr, mErr)
+			return
+		case mErr == "":
+			if x, y := multisetDiff(bl.hcl, hb); len(x)+len(y) > 0 {
+				res.verdict, res.key = "violated", keyOf("marshalled-blocks")
+				res.why = fmt.Sprintf("%s %s: MarshalHCL of the evaluated schema gives other BLOCKS (not only another order) when the source lists its blocks in another order: %.300q vs %.300q", pc.Dialect, pc.Source, first(x), first(y))
+				res.detail["only_in_listed_order"] = show(x, 4)
+				res.detail["only_in_permuted"] = show(y, 4)
+				return
+			}
+			if roundTrip {
+				if (rtErr != "") != (bl.rtErr != "") {
+					res.verdict, res.key = "violated", keyOf("marshalled-document-evaluable-in-one-order")
+					res.why = fmt.Sprintf("%s %s: the marshalled document can be evaluated again for one block order of the source only: listed=%q permuted=%q", pc.Dialect, pc.Source, bl.rtErr, rtErr)
+					return
+				}
+				if x, y := multisetDiff(bl.rt, rtd); rtErr == "" && len(x)+len(y) > 0 {
+					res.verdict, res.key = "violated", keyOf("marshal-round-trip")
+					res.why = fmt.Sprintf("%s %s: evaluating the marshalled HCL gives another schema depending on the block order of the source: %.300q vs %.300q", pc.Dialect, pc.Source, first(x), first(y))
+					return
+				}
+				res.roundTrip = rtErr == ""
+			}
 		}
 	}
 	// (4) SQLite: both plans are executed on real databases and the catalogues compared
@@ -750,9 +840,12 @@ func permCases(c *rt.Ctx, e *permEnv) (cases []PermCase, exhaustive, sampled int
 		nSeeded := 50
 		s := e.sources[k]
 		n := len(s.blocks)
-		big := !strings.HasPrefix(s.name, "pool:")
+		big := !strings.HasPrefix(s.name, "pool:") && !s.raw
 		modes := []string{"create", "drop", "modify", "rev"}
-		if !big && c.Quick() {
+		if s.raw {
+			modes = []string{"create", "drop"}
+		}
+		if !big && !s.raw && c.Quick() {
 			modes = []string{"create", "modify"}
 		}
 		if big && c.Quick() {
@@ -814,13 +907,15 @@ func permCases(c *rt.Ctx, e *permEnv) (cases []PermCase, exhaustive, sampled int
 	}
 	// the heavy sources first, so that they do not form the tail of the parallel run
 	sort.SliceStable(cases, func(i, j int) bool {
-		return !strings.HasPrefix(cases[i].Source, "pool:") && strings.HasPrefix(cases[j].Source, "pool:")
+		small := func(n string) bool { return strings.HasPrefix(n, "pool:") || strings.HasPrefix(n, "raw:") }
+		return !small(cases[i].Source) && small(cases[j].Source)
 	})
 	return
 }
 
 func runPerm(c *rt.Ctx) map[string]any {
 	e := newPermEnv(c.Seed)
+	e.quick = c.Quick()
 	cases, exh, smp := permCases(c, e)
 	c.Par(len(cases), func(i int, w *rt.W) {
 		pc := cases[i]
@@ -834,6 +929,11 @@ func runPerm(c *rt.Ctx) map[string]any {
 		src := pc.Source
 		if strings.HasPrefix(src, "pool:") {
 			src = "pool"
+		}
+		if res.rejected {
+			c.Eval(res.digest, false)
+			c.Count("perm:"+pc.Dialect+":"+pc.Source+":rejected-in-listed-and-permuted-order", 1)
+			return
 		}
 		switch res.verdict {
 		case "ood":
@@ -852,6 +952,9 @@ func runPerm(c *rt.Ctx) map[string]any {
 		}
 		if res.executed {
 			c.Count("perm:sqlite-executed-and-compared", 1)
+		}
+		if res.roundTrip {
+			c.Count("perm:marshal-round-trip-compared", 1)
 		}
 		c.Count("perm:planned-statements", int64(res.stmts))
 		if res.verdict == "violated" {
